@@ -1608,6 +1608,8 @@ def validate(prop, rng, n_per_fn, res):
             and all(common.TRANSLATION_STATUS.get(f, {}).get("translated") for f in
                     ("find_dependencies", "update_recursive", "DelayFixed_with_delay", "DelayToPull_with_delay", "DelayToPush_with_delay")):
         validate_sched_heap(rng, max(6, n_per_fn // 3), res)
+    if prop == "C18" and os.path.exists(TRDRIVER):
+        validate_maskrules(rng, max(600, 6 * n_per_fn), res)
     if prop == "C15" and os.path.exists(TRDRIVER):
         validate_gridcompat(rng, max(60, 2 * n_per_fn), res)
     if prop == "C19" and os.path.exists(TRDRIVER) and all(common.TRANSLATION_STATUS.get(f, {}).get("translated") for f in
@@ -1827,6 +1829,71 @@ def validate_sched_heap(rng, n_specs, res, max_steps=10):
         except Exception:  # noqa
             pass
     res.extra["translation_validation_object_graphs"] = stats
+
+
+def validate_maskrules(rng, n, res):
+    """`masks_compatible` of the package on the catalogue of masks and grids (explicit masks on fitting grids, the two
+    `Mask` members, `None`; both directions) against the translated definition owned by C18; `masks_equal` goes to the
+    translated code as a table computed from the live package"""
+    from finam.data.tools import mask as mtools
+
+    from .engines import c07
+
+    if not common.TRANSLATION_STATUS.get("masks_compatible_rules", {}).get("translated"):
+        return
+    ng = len(c07.GRIDS)
+    gobj = lambda g: None if g is None else c07.GRIDS[g][1]  # noqa
+    mcode = lambda m: None if m is None else (-1 if m == "flex" else -2 if m == "none" else m)  # noqa
+    mobj = lambda m: None if m is None else (fm.Mask.FLEX if m == "flex" else fm.Mask.NONE if m == "none" else c07.MASKS[m])  # noqa
+    gopts = [None] + list(range(ng))
+    mopts = [None, "flex", "none"] + list(c07.MASKS)
+
+    def fits(m, g):
+        return not isinstance(m, int) or g is None or c07.GRID_NAMES[g] in c07.MASK_FITS[m]
+
+    def safe(f, *a):
+        try:
+            return bool(f(*a))
+        except Exception:  # noqa
+            return None
+
+    me_cache = {}
+    stats = {"calls": 0, "accepted": 0, "kinds": {}, "mismatch": 0}
+    reqs, reals, metas = [], [], []
+    for _ in range(n):
+        this = rng.choice(mopts)
+        inc = rng.choice(mopts) if rng.random() < 0.75 else rng.choice(list(c07.MASKS))
+        if isinstance(inc, int) and rng.random() < 0.3:
+            this = rng.choice(list(c07.MASKS))      # two explicit masks: the comparison that accounts for the grid layouts
+        tg = rng.choice([g for g in gopts if fits(this, g)])
+        ig = rng.choice([g for g in gopts if fits(inc, g)])
+        ds = rng.random() < 0.5
+        tab = []
+        for a in (this, inc):
+            for b in (this, inc):
+                for g1 in (tg, ig):
+                    for g2 in (tg, ig):
+                        k = (a, b, g1, g2)
+                        if k not in me_cache:
+                            me_cache[k] = safe(mtools.masks_equal, mobj(a), mobj(b), gobj(g1), gobj(g2))
+                        if me_cache[k]:
+                            tab.append([[mcode(a), mcode(b)], [g1, g2]])
+        real = safe(mtools.masks_compatible, mobj(this), mobj(inc), ds, gobj(tg), gobj(ig))
+        if real is None:
+            continue
+        reqs.append({"fn": "masks_compatible_rules", "args": [mcode(this), mcode(inc), ds, tg, ig, tab]})
+        reals.append(real)
+        metas.append({"this": this, "incoming": inc, "downstream": ds, "grids": [tg, ig]})
+        kind = ("explicit" if isinstance(this, int) else str(this)) + "/" + ("explicit" if isinstance(inc, int) else str(inc))
+        stats["kinds"][kind] = stats["kinds"].get(kind, 0) + 1
+        stats["calls"] += 1
+        stats["accepted"] += 1 if real else 0
+    if reqs:
+        for real, meta, got in zip(reals, metas, _trdriver(reqs)):
+            if got != {"ok": real}:
+                stats["mismatch"] += 1
+                res.diverge("translation/masks_compatible", meta, {"ok": real}, got)
+    res.extra["translation_validation_mask_rules"] = stats
 
 
 def validate_gridcompat(rng, n_cases, res):
